@@ -327,7 +327,13 @@ func (f *formatter) writeFileHeader() {
 // writeFileTypes writes the types defined in a .proto file. This includes the messages, enums,
 // services, etc. All other elements are ignored since they are handled by f.writeFileHeader.
 func (f *formatter) writeFileTypes() {
-	for i, fileElement := range f.fileNode.Decls {
+	// The index of the element, not counting empty declarations: they
+	// are dropped, so they must not influence the result.
+	i := -1
+	for _, fileElement := range f.fileNode.Decls {
+		if _, ok := fileElement.(*ast.EmptyDeclNode); !ok {
+			i++
+		}
 		switch node := fileElement.(type) {
 		case *ast.PackageNode, *ast.OptionNode, *ast.ImportNode, *ast.EmptyDeclNode:
 			// These elements have already been written by f.writeFileHeader.
@@ -341,6 +347,18 @@ func (f *formatter) writeFileTypes() {
 			f.writeNode(node)
 		}
 	}
+}
+
+// hasElementsToWrite returns true if any of the elements of a body is written.
+// Empty declarations are not, so a body that only consists of them is written
+// like an empty body.
+func hasElementsToWrite[T ast.Node](elements []T) bool {
+	for _, element := range elements {
+		if _, ok := any(element).(*ast.EmptyDeclNode); !ok {
+			return true
+		}
+	}
+	return false
 }
 
 // writeSyntax writes the syntax.
@@ -551,7 +569,7 @@ func (f *formatter) writeOptionName(optionNameNode *ast.OptionNameNode) {
 //	}
 func (f *formatter) writeMessage(messageNode *ast.MessageNode) {
 	var elementWriterFunc func()
-	if len(messageNode.Decls) != 0 {
+	if hasElementsToWrite(messageNode.Decls) {
 		elementWriterFunc = func() {
 			for _, decl := range messageNode.Decls {
 				f.writeNode(decl)
@@ -822,7 +840,7 @@ func (f *formatter) writeMessageFieldPrefix(messageFieldNode *ast.MessageFieldNo
 //	}
 func (f *formatter) writeEnum(enumNode *ast.EnumNode) {
 	var elementWriterFunc func()
-	if len(enumNode.Decls) > 0 {
+	if hasElementsToWrite(enumNode.Decls) {
 		elementWriterFunc = func() {
 			for _, decl := range enumNode.Decls {
 				f.writeNode(decl)
@@ -947,7 +965,7 @@ func (f *formatter) writeFieldReference(fieldReferenceNode *ast.FieldReferenceNo
 //	}
 func (f *formatter) writeExtend(extendNode *ast.ExtendNode) {
 	var elementWriterFunc func()
-	if len(extendNode.Decls) > 0 {
+	if hasElementsToWrite(extendNode.Decls) {
 		elementWriterFunc = func() {
 			for _, decl := range extendNode.Decls {
 				f.writeNode(decl)
@@ -975,7 +993,7 @@ func (f *formatter) writeExtend(extendNode *ast.ExtendNode) {
 //	  rpc Foo(FooRequest) returns (FooResponse) {};
 func (f *formatter) writeService(serviceNode *ast.ServiceNode) {
 	var elementWriterFunc func()
-	if len(serviceNode.Decls) > 0 {
+	if hasElementsToWrite(serviceNode.Decls) {
 		elementWriterFunc = func() {
 			for _, decl := range serviceNode.Decls {
 				f.writeNode(decl)
@@ -1003,7 +1021,7 @@ func (f *formatter) writeService(serviceNode *ast.ServiceNode) {
 //	};
 func (f *formatter) writeRPC(rpcNode *ast.RPCNode) {
 	var elementWriterFunc func()
-	if len(rpcNode.Decls) > 0 {
+	if hasElementsToWrite(rpcNode.Decls) {
 		elementWriterFunc = func() {
 			for _, decl := range rpcNode.Decls {
 				f.writeNode(decl)
@@ -1058,7 +1076,7 @@ func (f *formatter) writeRPCType(rpcTypeNode *ast.RPCTypeNode) {
 //	}
 func (f *formatter) writeOneOf(oneOfNode *ast.OneofNode) {
 	var elementWriterFunc func()
-	if len(oneOfNode.Decls) > 0 {
+	if hasElementsToWrite(oneOfNode.Decls) {
 		elementWriterFunc = func() {
 			for _, decl := range oneOfNode.Decls {
 				f.writeNode(decl)
@@ -1089,7 +1107,7 @@ func (f *formatter) writeOneOf(oneOfNode *ast.OneofNode) {
 //	}
 func (f *formatter) writeGroup(groupNode *ast.GroupNode) {
 	var elementWriterFunc func()
-	if len(groupNode.Decls) > 0 {
+	if hasElementsToWrite(groupNode.Decls) {
 		elementWriterFunc = func() {
 			for _, decl := range groupNode.Decls {
 				f.writeNode(decl)
